@@ -383,6 +383,11 @@ HANDMADE = ['(', ';', ';@', 'C |^1:5|', 'C-;@C', 'C!~C', 'C!', 'C;', 'C-;', 'C.(
             'C%12', 'C%1%1', '%1C', 'C(%11)', 'C%(11)', 'C1%01', 'C10', 'C1C0', 'C01', '[0C]', '[C0]', '[CH4-]', '[H-]', '[HH1]', '[HH2+]']
 
 
+NON_ASCII = ['C\u0661CC\u0661', 'C\uff11CC\uff11', 'C\u00b2', 'C\u00bdC', 'C\u2460CC\u2460', 'C%\u0661\u0662CC%12', '\u0421', 'C\u00a0C',
+             'C\u2003|^1:0|', '[\u0661\u0663C]', '[C\uff0b]', 'C\u2013C', 'C\uff1dC', '[\u0421]', 'C\u0301', '\u00e7', 'C\u00a0|^1:0|', 'C\u0085C',
+             'C |^1:\u0660|', 'C.C>> |f:\u0660.1|', 'C\u2082H', 'C>\uff1e>C']
+
+
 def streams(ctx):
     """yield (tag, string)"""
     rng = ctx.rng
@@ -563,6 +568,14 @@ def correspond(ctx):
                 ctx.fail(r[0], r[1], {'smiles': s})
         batch.clear()
 
+    # property-level judgement only (the Lean model is validated on ASCII): a few strings with non-ASCII digits, letters, spaces
+    for s in NON_ASCII:
+        ctx.dist('stream:non-ascii(oracle only)')
+        state['n_or'] += 1
+        r = oracle(s)
+        ctx.count(('S', s), True)
+        if r is not None:
+            ctx.fail(r[0], r[1], {'smiles': s})
     for tag, s in streams(ctx):
         if not s or any(ord(c) > 126 for c in s):
             continue
